@@ -11,6 +11,7 @@ import (
 	"github.com/polynetwork/poly/native"
 	ccom "github.com/polynetwork/poly/native/service/cross_chain_manager/common"
 	"github.com/polynetwork/poly/native/service/cross_chain_manager/consensus_vote"
+	"github.com/polynetwork/poly/native/service/cross_chain_manager/ripple"
 	"github.com/polynetwork/poly/native/service/governance/neo3_state_manager"
 	"github.com/polynetwork/poly/native/service/governance/node_manager"
 	"github.com/polynetwork/poly/native/service/governance/relayer_manager"
@@ -39,6 +40,8 @@ import (
 //	svappr|svapprrm <signers> <id> <addr>
 //	vote <signers> <id> <addr>                           consensus_vote.CheckVotes
 //	deposit <signers> <relayer> <chain> <height> <extra> <vote id> <cross chain id|none>   VoteHandler.MakeDepositProposal
+//	rdeposit <...as deposit...> <ok|fail>                ripple RippleHandler.MakeDepositProposal (last token: continuation succeeds)
+//	assetbind <chain> <tochain> <lockproxy> <asset>      setup: asset binding of a source chain
 //	sig <signers> <addr> <chainid> <subject> <sig> <sha256(subject)>   signature_manager.AddSignature
 //	dry <op...>                                          pre-execute the op (nothing committed) -> `dry <outcome>`
 //	dump                                                 full canonical state
@@ -49,7 +52,7 @@ func (w *world) exec(r *hx.Run, op []string) (res string) {
 	// throw-away cache and nothing is committed; whatever it did must be invisible to every later transaction
 	if len(op) > 1 && op[0] == "dry" {
 		switch op[1] {
-		case "key", "height", "time", "dump", "dry", "admit", "refresh", "restart":
+		case "key", "height", "time", "dump", "dry", "admit", "refresh", "restart", "assetbind":
 			return "bad-op"
 		}
 		w.dry = true
@@ -351,8 +354,26 @@ func (w *world) exec(r *hx.Run, op []string) (res string) {
 		sink := common.NewZeroCopySink(nil)
 		(&side_chain_manager.UpdateFeeParam{Address: a, ChainId: chain, View: view, Fee: new(big.Int).SetUint64(fee)}).Serialization(sink)
 		cr = w.invoke(signers, utils.SideChainManagerContractAddress, side_chain_manager.UPDATE_FEE, sink.Bytes())
-	case "deposit":
-		if len(op) != 8 {
+	case "assetbind":
+		// setup: plant the asset binding of a source chain (side_chain_manager.PutAssetBind), which the continuation
+		// of ripple_handler.MakeDepositProposal reads after the vote phase
+		if len(op) != 5 {
+			return "bad-op"
+		}
+		chain, ok1 := u64(op[1])
+		to, ok2 := u64(op[2])
+		if !ok1 || !ok2 {
+			return "bad-op"
+		}
+		w.direct(nil, func(svc *native.NativeService) (bool, error) {
+			side_chain_manager.PutAssetBind(svc, chain, &side_chain_manager.AssetBind{
+				AssetMap: map[uint64][]byte{to: hx.UnHex(op[4])}, LockProxyMap: map[uint64][]byte{to: hx.UnHex(op[3])}})
+			return true, nil
+		})
+		w.cur = nil
+		return "ok"
+	case "deposit", "rdeposit":
+		if op[0] == "deposit" && len(op) != 8 || op[0] == "rdeposit" && len(op) != 9 {
 			return "bad-op"
 		}
 		signers, ok1 := parseSigners(op[1])
@@ -377,10 +398,22 @@ func (w *world) exec(r *hx.Run, op []string) (res string) {
 		}
 		in := common.NewZeroCopySink(nil)
 		(&ccom.EntranceParam{SourceChainID: chain, Height: uint32(ht), Extra: extra, RelayerAddress: rel[:]}).Serialization(in)
-		cr = w.directIn(signers, in.Bytes(), func(svc *native.NativeService) (bool, error) {
-			p, err := consensus_vote.NewVoteHandler().MakeDepositProposal(svc)
-			return p != nil, err
-		})
+		if op[0] == "rdeposit" {
+			// oracle value: does the continuation after the done-transaction mark succeed (lock proxy and asset of the
+			// target chain bound, arguments decode)? computed here from the planted binding and the payload
+			if w.rippleContinuation(chain, mtp, ccid != "none") != op[8] {
+				return "bad-op"
+			}
+			cr = w.directIn(signers, in.Bytes(), func(svc *native.NativeService) (bool, error) {
+				p, err := ripple.NewRippleHandler().MakeDepositProposal(svc)
+				return p != nil, err
+			})
+		} else {
+			cr = w.directIn(signers, in.Bytes(), func(svc *native.NativeService) (bool, error) {
+				p, err := consensus_vote.NewVoteHandler().MakeDepositProposal(svc)
+				return p != nil, err
+			})
+		}
 	case "sig":
 		if len(op) != 7 {
 			return "bad-op"
@@ -416,6 +449,36 @@ func (w *world) exec(r *hx.Run, op []string) (res string) {
 		r.Hist("outcome.ok")
 	}
 	return cr.line(digest(post.text()))
+}
+
+// rippleContinuation: "ok" iff what RippleHandler.MakeDepositProposal does after marking the transaction done succeeds.
+func (w *world) rippleContinuation(chain uint64, mtp *ccom.MakeTxParam, decoded bool) string {
+	if !decoded {
+		return "fail"
+	}
+	res := "fail"
+	w.direct(nil, func(svc *native.NativeService) (bool, error) {
+		ab, err := side_chain_manager.GetAssetBind(svc, chain)
+		if err != nil {
+			return false, nil
+		}
+		if _, ok := ab.LockProxyMap[mtp.ToChainID]; !ok {
+			return false, nil
+		}
+		src := common.NewZeroCopySource(mtp.Args)
+		if _, eof := src.NextVarBytes(); eof {
+			return false, nil
+		}
+		if _, eof := src.NextUint64(); eof {
+			return false, nil
+		}
+		if _, ok := ab.AssetMap[mtp.ToChainID]; !ok {
+			return false, nil
+		}
+		res = "ok"
+		return false, nil
+	})
+	return res
 }
 
 // operator is the address CommitDpos / UpdateConfig require as witness (multi-signature address of the consensus set).
